@@ -156,8 +156,20 @@ fn parse_outer_header(data: &[u8]) -> Result<(KDBX4OuterHeader, usize), Database
         //   entry_buffer: [u8; entry_length]       // the entry buffer
         // )
 
+        if data.len() < pos + 5 {
+            return Err(DatabaseIntegrityError::IncompleteOuterHeader {
+                missing_field: "End of header".into(),
+            }
+            .into());
+        }
         let entry_type = data[pos];
         let entry_length: usize = LittleEndian::read_u32(&data[pos + 1..(pos + 5)]) as usize;
+        if data.len() - (pos + 5) < entry_length {
+            return Err(DatabaseIntegrityError::IncompleteOuterHeader {
+                missing_field: "End of header".into(),
+            }
+            .into());
+        }
         let entry_buffer = &data[(pos + 5)..(pos + 5 + entry_length)];
 
         pos += 5 + entry_length;
@@ -174,6 +186,9 @@ fn parse_outer_header(data: &[u8]) -> Result<(KDBX4OuterHeader, usize), Database
             }
 
             HEADER_COMPRESSION_ID => {
+                if entry_buffer.len() < 4 {
+                    return Err(DatabaseIntegrityError::InvalidOuterHeaderEntry { entry_type }.into());
+                }
                 compression_config = Some(CompressionConfig::try_from(LittleEndian::read_u32(
                     &entry_buffer,
                 ))?);
